@@ -11,11 +11,18 @@ PROP = "C18"
 NSH = 16
 
 
-def explore(exe, nthreads, variant, k, gran):
+def explore(exe, nthreads, variant, k, gran, budget):
+    env = dict(os.environ)
+    env["SCHED_BUDGET"] = str(int(budget))
+
     def one(sh):
-        p = subprocess.run([exe, str(nthreads), str(variant), str(k), str(sh), str(NSH)] + ([gran] if gran == "coarse" else []),
-                           stdout=subprocess.PIPE, stderr=subprocess.DEVNULL, timeout=3600)
-        return p.stdout.decode("latin-1")
+        try:
+            p = subprocess.run([exe, str(nthreads), str(variant), str(k), str(sh), str(NSH)] + ([gran] if gran == "coarse" else []),
+                               stdout=subprocess.PIPE, stderr=subprocess.DEVNULL, timeout=budget + 600, start_new_session=True, env=env)
+            return p.stdout.decode("latin-1")
+        except subprocess.TimeoutExpired as e:
+            subprocess.run(["pkill", "-9", "-f", os.path.dirname(exe)])
+            return (e.stdout or b"").decode("latin-1")     # no DONE line: reported as an incomplete exploration
     with ThreadPoolExecutor(max_workers=NSH) as ex:
         outs = list(ex.map(one, range(NSH)))
     sched = 0
@@ -35,7 +42,7 @@ def explore(exe, nthreads, variant, k, gran):
                 sched += int(f["schedules"])
                 points = max(points, int(f["points"]))
                 outcomes = max(outcomes, int(f["outcomes"]))
-                done = True
+                done = f.get("capped", "0") == "0"
         ok = ok and done
     return sched, points, outcomes, viols, ok
 
@@ -72,7 +79,8 @@ def run(tier, seed):
         if rep.expired():
             rep.cut_short("threads=%d variant=%d k=%d not run" % (n, variant, k))
             continue
-        sched, points, outcomes, viols, ok = explore(exe, n, variant, k, g)
+        budget = max(20, min(rep.time_left(), 45 if tier == "quick" else 900))
+        sched, points, outcomes, viols, ok = explore(exe, n, variant, k, g, budget)
         rep.evaluations += sched
         rep.traces += sched
         rep.states += sched
@@ -83,7 +91,8 @@ def run(tier, seed):
                                                                  "distinct_outcomes": outcomes}
         rep.outcomes.add((n, variant, outcomes))
         if not ok:
-            rep.cut_short("explorer shard ended abnormally for threads=%d body=%d" % (n, variant))
+            rep.cut_short("exploration of threads=%d body=%d k=%d stopped at its time budget or ended abnormally; schedules explored so "
+                          "far are counted" % (n, variant, k))
         for kind, schedule, detail in viols[:10]:
             rep.fail({"class": "schedule", "threads": str(n), "body": str(variant), "kind": kind,
                       "npreempt": str(len([x for x in schedule.split(",") if x]))},
